@@ -742,6 +742,58 @@ pub mod verif_hooks {
         (e, d, comp.available_kmers)
     }
 
+    /// One call of `CompressFromGraph::extend_node`: the whole walk from `node` in direction
+    /// `dir`. Returns the walked (node, incoming side) list, the end extensions and the
+    /// availability set after the walk.
+    pub fn extend_node_walk<K, D, S>(
+        stranded: bool,
+        spec: &S,
+        graph: &DebruijnGraph<K, D>,
+        available_nodes: BitSet,
+        node: usize,
+        dir: Dir,
+    ) -> (Vec<(usize, Dir)>, Exts, BitSet)
+    where
+        K: Kmer + Send + Sync,
+        D: Debug + Clone + PartialEq,
+        S: CompressionSpec<D>,
+    {
+        let mut comp = CompressFromGraph {
+            stranded,
+            d: PhantomData,
+            spec,
+            available_nodes,
+            graph,
+        };
+        let (path, e) = comp.extend_node(node, dir);
+        (path, e, comp.available_nodes)
+    }
+
+    /// One call of `CompressFromGraph::build_node` from node `seed`. Returns the merged
+    /// sequence, extensions, node path, folded payload and the availability set afterwards.
+    pub fn build_graph_node_from<K, D, S>(
+        stranded: bool,
+        spec: &S,
+        graph: &DebruijnGraph<K, D>,
+        available_nodes: BitSet,
+        seed: usize,
+    ) -> (DnaString, Exts, VecDeque<(usize, Dir)>, D, BitSet)
+    where
+        K: Kmer + Send + Sync,
+        D: Debug + Clone + PartialEq,
+        S: CompressionSpec<D>,
+    {
+        let mut comp = CompressFromGraph {
+            stranded,
+            d: PhantomData,
+            spec,
+            available_nodes,
+            graph,
+        };
+        let (s, e, p, d) = comp.build_node(seed);
+        (s, e, p, d, comp.available_nodes)
+    }
+
     /// One call of `CompressFromGraph::try_extend_node`.
     pub fn try_extend_node_step<K, D, S>(
         stranded: bool,
